@@ -128,8 +128,9 @@ class SceneGraph:
         if key in self._cache:
             return self._cache[key]
 
-        # get the geometry at the final node if any
-        geometry = self.transforms.node_data[frame_to].get("geometry")
+        # get the geometry at the final node if any: `node_data` is a
+        # defaultdict so index access would insert an unknown frame
+        geometry = self.transforms.node_data.get(frame_to, {}).get("geometry")
 
         # get a local reference to edge data
         data = self.transforms.edge_data
